@@ -92,6 +92,10 @@ func writeEvidence(id, tier string, seed int, cd *CheckDef, w *gosym.World, tota
 		"queries":                       total.Queries,
 		"solver_time_s":                 round(total.SolverTime.Seconds()),
 		"solver_unknown":                total.SolverUnknown,
+		"fallback_solver":               "cvc5 1.0.3 --incremental --solve-bv-as-int=sum (asked only when z3 answers unknown)",
+		"fallback_queries":              total.Fallbacks,
+		"fallback_time_s":               round(total.FallbackTime.Seconds()),
+		"state_merges":                  total.Merges,
 		"unwinding_failures":            total.UnwindFail,
 		"unsupported":                   unsup,
 		"vacuity_failures":              vac,
